@@ -268,7 +268,8 @@ def run(case: dict, ctx) -> dict:
             st.update({g + 1: "A" for g in list(st) if g + 1 < ngr and rng.random() < 0.5})
         desc = w.descriptor_text([f'RW {cap} SPARSE "x.vmdk"'], create_type="streamOptimized") if rng.random() < 0.6 else None
         sf, layer, meta = w.build_stream_optimized(rng, capacity=cap, grain=grain, ngte=ngte, tag=tag, descriptor=desc, states=st,
-                                                   level=rng.choice([1, 6, 9]), version=rng.choice([1, 3]), slots=rng.random() < 0.4)
+                                                   level=rng.choice([1, 6, 9]), version=rng.choice([1, 3]), slots=rng.random() < 0.4,
+                                                   embedded_lba=rng.random() < 0.75)
         res["cnt"]["stream_directory_over_one_sector_cases"] = int(-(-cap // (ngte * grain)) > 128)
     elif k == "cowd":
         grain = rng.choice([1, 1, 2, 8, 16, 128])
